@@ -354,4 +354,8 @@ def run(chk, ctx):
     r1(chk, ctx, p, se)
     r2(chk, ctx, p, se)
     r3(chk, ctx, p, se)
+    from . import c06, c12, c14
+    c12.r3(chk, ctx, ctx.mod('state_engine_paths'), p, se)   # a value selected by Parameters is a copy: placing it with ResultPath must not make the document contain itself
+    c14.r2(chk, ctx, c14.r1(chk, ctx))                       # 'Choice takes the first matching rule': operators compare by type
+    c06.r2(chk, ctx)                                         # only replies of the terminated branch itself become Task.Terminated: sibling branches keep their outputs
     chk.assume("apply_path / evaluate_payload_template / apply_resultpath compute what C12/C13 decide about them")
